@@ -119,6 +119,7 @@ func (x *Exec) call(e *ast.CallExpr, st *State) Value {
 		}
 		m := x.modifiedIn(lit.Body)
 		x.havoc(st, m)
+		x.assumeLitInvariants(lit, st, res)
 	}
 	return res
 }
@@ -289,6 +290,9 @@ func (x *Exec) builtin(e *ast.CallExpr, st *State, name string) Value {
 		}
 		for _, a := range e.Args[1:] {
 			x.expr(a, st)
+		}
+		if _, ok := t.Underlying().(*types.Map); ok {
+			return Sc{x.newMap(st, "makemap")}
 		}
 		x.abstr["make "+t.String()] = true
 		p := x.alloc(st, "make")
